@@ -1634,7 +1634,7 @@ def cmp_matches(atom, left_pred, right_pred, allowed):
     return False
 
 
-def guarded(body, effect_points, accept, starts=None, extra_avoid=()):
+def guarded(body, effect_points, accept, starts=None, extra_avoid=(), _depth=0):
     """T1: True iff every normal path from entry (or `starts`) to any effect point crosses at least one switch edge
     whose literal is accepted by `accept(atoms, literal)`. Returns (ok, witness_cut_edges)."""
     cut = set()
@@ -1660,6 +1660,15 @@ def guarded(body, effect_points, accept, starts=None, extra_avoid=()):
             bad = still
         except PathLimit:
             pass
+    if bad and starts is None and not extra_avoid and _depth < 2 and body.kind in ('fn', 'method') and body.raw.get('vis') != 'pub' \
+            and not body.raw.get('impl_trait'):
+        # the test may sit at the call sites instead (`if c { self.f() }` rather than `fn f() { if c {..} }`): the effect happens only if
+        # the private function is called, so it is guarded when EVERY call site is (the guard terms are fields / queries of the objects
+        # handed down, which read the same in the caller)
+        sites = [(cb, cb.term_point(bb)) for cb in body.facts.bodies.values() for (bb, t) in cb.calls()
+                 if t.get('callee') == body.name or t.get('resolved') == body.name]
+        if sites and all(guarded(cb, [pt], accept, _depth=_depth + 1)[0] for (cb, pt) in sites):
+            return True, cut, []
     return (not bad), cut, bad
 
 
